@@ -38,9 +38,10 @@ type (
 		Args []SExpr
 	}
 	SQuant struct {
-		Forall bool
-		Vars   []SVar
-		Body   SExpr
+		Forall   bool
+		Vars     []SVar
+		Body     SExpr
+		Triggers []SExpr // explicit multi-pattern: forall x T :: { t1, t2 } body
 	}
 	SVar struct{ Name, Type string }
 )
@@ -121,6 +122,8 @@ type Contract struct {
 	Wraps    map[string]bool // wrap-around allowed for assignments to these variables
 	Pure     bool            // no heap effect (deps / trusted)
 	Trusted  bool            // body not verified (deps are always trusted)
+	Abstract bool            // assumed model of an interface method: no impl check
+	PureCalls bool           // calls of function-typed parameters have no heap effect (assumed)
 	Inline   bool
 	NoSafety map[string]bool // safety kinds not generated (stated in evidence)
 	Known    map[string]bool
@@ -139,6 +142,7 @@ type PredDef struct {
 	Body   SExpr
 	Pkg    string
 	Rec    bool
+	Uninterp bool
 	Ret    string
 	Dec    SExpr
 }
@@ -167,7 +171,14 @@ type GhostField struct {
 	Pkg, Type, Name, TypeName string
 }
 
+type AxiomDecl struct {
+	Pkg  string
+	Body SExpr
+	Text string
+}
+
 type SpecFile struct {
+	Axioms    []*AxiomDecl
 	Ghosts    []*GhostField
 	Path      string
 	Pkg       string
@@ -189,7 +200,7 @@ type tok struct {
 var clauseKW = map[string]bool{
 	"requires": true, "ensures": true, "modifies": true, "loop": true, "invariant": true, "decreases": true,
 	"property": true, "wraps": true, "func": true, "pred": true, "pure": true, "trusted": true, "inline": true,
-	"frame": true, "callers": true, "type": true, "package": true, "nosafety": true, "note": true, "recursion": true, "ghost": true, "argpolicy": true,
+	"frame": true, "callers": true, "type": true, "package": true, "nosafety": true, "note": true, "recursion": true, "ghost": true, "argpolicy": true, "ufunc": true, "abstract": true, "axiom": true, "purecalls": true,
 }
 
 func lexSpec(lines []string, lineNos []int) ([]tok, error) {
@@ -401,8 +412,18 @@ func (p *sparser) primary() SExpr {
 				}
 				p.expect(";")
 			}
+			var trig []SExpr
+			if p.accept("{") {
+				for !p.isOp("}") {
+					trig = append(trig, p.expr(1))
+					if !p.accept(",") {
+						break
+					}
+				}
+				p.expect("}")
+			}
 			body := p.expr(1)
-			return &SQuant{t.s == "forall", vs, body}
+			return &SQuant{Forall: t.s == "forall", Vars: vs, Body: body, Triggers: trig}
 		}
 		return &SIdent{t.s}
 	case "op":
@@ -674,6 +695,11 @@ func parseSpecFile(path string, defaultPkg string) (sf *SpecFile, err error) {
 			}
 		case "trusted":
 			cur.Trusted = true
+		case "abstract":
+			// an assumed abstract model of an interface method (e.g. the database): implementations are not
+			// checked against it; listed among the assumptions
+			cur.Trusted = true
+			cur.Abstract = true
 		case "inline":
 			cur.Inline = true
 		case "note":
@@ -697,6 +723,36 @@ func parseSpecFile(path string, defaultPkg string) (sf *SpecFile, err error) {
 			fn := p.next().s
 			ty := p.typeName()
 			sf.Ghosts = append(sf.Ghosts, &GhostField{Pkg: sf.Pkg, Type: tn, Name: fn, TypeName: ty})
+			cur = nil
+		case "axiom":
+			e := p.expr(1)
+			sf.Axioms = append(sf.Axioms, &AxiomDecl{Pkg: sf.Pkg, Body: e, Text: e.String()})
+			cur = nil
+		case "purecalls":
+			// function-typed parameters are assumed free of heap effects (listed among the assumptions)
+			cur.PureCalls = true
+		case "ufunc":
+			// ufunc name(p1 T1, p2 T2) R  -- an uninterpreted spec function (R is int or bool)
+			name := p.next().s
+			p.expect("(")
+			var vs []SVar
+			for !p.isOp(")") {
+				var names []string
+				names = append(names, p.next().s)
+				for p.accept(",") {
+					names = append(names, p.next().s)
+				}
+				ty := p.typeName()
+				for _, n := range names {
+					vs = append(vs, SVar{n, ty})
+				}
+				if !p.accept(",") {
+					break
+				}
+			}
+			p.expect(")")
+			ret := p.typeName()
+			sf.Preds = append(sf.Preds, &PredDef{Name: name, Params: vs, Pkg: sf.Pkg, Ret: ret, Uninterp: true})
 			cur = nil
 		case "argpolicy":
 			// argpolicy Func <argIndex> <literal> unless: f1, f2   -- callers outside the list must pass the literal
